@@ -101,6 +101,14 @@ impl Cm for TriC {
 impl Cm for SeptC {
     const ID: CodecId = CodecId::Sept;
 }
+pub type DuoC = crate::custom::Duo;
+impl Cm for DuoC {
+    const ID: CodecId = CodecId::Duo;
+}
+pub type UnoC = crate::custom::Uno;
+impl Cm for UnoC {
+    const ID: CodecId = CodecId::Uno;
+}
 pub type OctC = crate::custom::Oct;
 impl Cm for OctC {
     const ID: CodecId = CodecId::Oct;
@@ -149,6 +157,14 @@ macro_rules! with_codec {
             }
             $crate::model::CodecId::Oct => {
                 type $C = $crate::codecs::OctC;
+                $body
+            }
+            $crate::model::CodecId::Duo => {
+                type $C = $crate::codecs::DuoC;
+                $body
+            }
+            $crate::model::CodecId::Uno => {
+                type $C = $crate::codecs::UnoC;
                 $body
             }
         }
